@@ -76,7 +76,8 @@ CLAIMS = {
              "file; thorough: second kill during recovery, both rmtree orders): a fresh process's reap refuses or is "
              "exact, the documented recovery reaches the direct-run result, data already in a harvester file or "
              "sampler table survives; writes buffered until close, recovery under another pid, a harvester that "
-             "sowed with data in memory while another process merged into its file.  One known finding (sampler duplicate-on-retry window) is listed and probed."),
+             "sowed with data in memory while another process merged into its file, crops sown by batch count "
+             "(remainder).  One known finding (sampler duplicate-on-retry window) is listed and probed."),
     "C11": dict(
         engine="A", category="model_checking", design_ref="DESIGN.md 5/C11",
         technique="CrossHair over StepFS timelines: each file's visible state is a solver-chosen monotone position "
@@ -88,7 +89,8 @@ CLAIMS = {
              "direct-run result and progress queries never count a partly written result.  Writes are either "
              "visible at once or buffered until a solver-chosen later step (at the latest close); the same batch "
              "grown by two growers at once and grown again after it finished are explored as well, and "
-             "reap(wait=True, allow_incomplete=True) with one batch finished and one being grown."),
+             "reap(wait=True, allow_incomplete=True) with either of two batches finished and the other being "
+             "grown.  Replays gate real grower threads step by step, steps on temporary files included."),
     "C13": dict(
         engine="A", category="model_checking", design_ref="DESIGN.md 5/C13",
         technique="CrossHair symbolic execution of the real is_case_missing / find_missing_cases / parse_into_cases "
@@ -116,7 +118,8 @@ CLAIMS = {
         text="Two-run histories (n<=2) with combos override, direct or through a crop, fresh Sampler objects, "
              "pickle|csv, shuffle: exactly n rows appended, earlier rows unchanged, rows pair drawn arguments with the "
              "function's value, disk = memory, a new sampler continues; two live Sampler objects on one file, a "
-             "crop reused for a second run, generator-valued combos, a batch grown with worker processes."),
+             "crop reused for a second run, generator-valued combos, a batch grown with worker processes, table "
+             "names with a compression suffix (.pkl.gz / .csv.gz)."),
     "C16": dict(
         engine="A", category="other", design_ref="DESIGN.md 5/C16",
         technique="CrossHair symbolic execution of the real gen_cluster_script + the generated Python program "
@@ -138,7 +141,8 @@ CLAIMS = {
         text="Bounded symbolic model checking of the real sow/grow/reap pipeline against the direct run, one "
              "dimension at a time (batching for N<=6 quick / N<=10 thorough, every shuffle permutation of N<=4, every "
              "order and grouping of B<=3 (4) batches, fresh Crop objects between steps, the real pickling library "
-             "lookup, the same crop name reused for a second function in one process).  Counterexamples are replayed "
+             "lookup, the same crop name reused for a second function in one process, arguments spelled in "
+             "non-alphabetical order, ten batches reaped with wait=True).  Counterexamples are replayed "
              "on a real temp directory with the real random module."),
     "C07": dict(
         engine="A", category="model_checking", design_ref="DESIGN.md 5/C07",
@@ -159,7 +163,8 @@ CLAIMS = {
              "and any finished subset, each of ten operations (re-sow, grow, grow subset, grow_missing, failing grow, "
              "delete, two kinds of corruption + check_bad, reload, healthy check_bad) leaves num_results, "
              "num_sown_batches, missing_results, is_ready_to_reap, str(crop) and the result files equal to the ghost "
-             "state; plus all histories of length 2 (3) from the empty state, and a grow that fails inside "
+             "state (a grow of the empty subset / grow_missing with nothing missing evaluates nothing); plus all "
+             "histories of length 2 (3) from the empty state, and a grow that fails inside "
              "pickle.dump on the real write_to_disk (step-level file system)."),
     "C09": dict(
         engine="A", category="model_checking", design_ref="DESIGN.md 5/C09",
@@ -173,7 +178,8 @@ CLAIMS = {
         engine="A", category="model_checking", design_ref="DESIGN.md 5/C12",
         technique="CrossHair symbolic execution of the real reap paths with solver-chosen clean_up/allow_incomplete/"
                   "wait and failure stage, followed by the corrected retry",
-        text="All combinations of clean_up x allow_incomplete x wait x failure stage on raw crops, and farmer kinds "
+        text="All combinations of clean_up x allow_incomplete x wait x failure stage (result missing, cut short, "
+             "zero bytes, over-long) on raw crops, and farmer kinds "
              "(Runner/Harvester/Sampler) x failure stage (wrong var_names, merge conflict, failing save): the crop "
              "directory survives every reap that raises and every reap whose effective clean_up "
              "is false; the corrected retry returns exactly the direct-run result."),
